@@ -560,8 +560,12 @@ let ch_c10 hex lim head kind =
   if List.mem head json_family_heads then begin
     if head <> expected then
       propfail "C10" (Printf.sprintf "JSON object reported as %s but its top-level members call for %s: limit=%s input=%s (%S) kind=%s" head expected lim hex (string_of_bytes raw) kind)
-  end else if kind = "whole" then
-    propfail "C08" (Printf.sprintf "well-formed JSON object not reported in the JSON family (%s): limit=%s input=%s (%S)" head lim hex (string_of_bytes raw))
+  end else if kind = "whole" then begin
+    propfail "C08" (Printf.sprintf "well-formed JSON object not reported in the JSON family (%s): limit=%s input=%s (%S)" head lim hex (string_of_bytes raw));
+    (* ... and when its members call for a sub-type, that sub-type is what C10 promises *)
+    if expected <> "application/json|.json" then
+      propfail "C10" (Printf.sprintf "JSON object whose top-level members call for %s reported as %s: limit=%s input=%s (%S) kind=%s" expected head lim hex (string_of_bytes raw) kind)
+  end
 
 let () =
   if Array.length Sys.argv > 1 then prop_mode := Sys.argv.(1);
